@@ -33,13 +33,30 @@
    the `_over_any_source` theorems: materialise / equality / similarity for EVERY source meeting
    the contract, hence for every C02 view term.  Hypothesis kept explicit there:
    elements (view shape) <= usize::MAX (a view whose index space exceeds usize cannot be
-   materialised at all), and `store` covers the leaves. *)
+   materialised at all), and `store` covers the leaves.
+   Third wave (Model/TransformMutG.v, Proofs/C13MutGenP.v, C13LeavesP.v, C13ReorderP.v):
+   (i) the MUTABLE TensorView methods map_mut / map_mut_with_index are transcribed against the
+   abstract TensorMut face `tsource` of Model/IterG.v and proved for every lens-like source and for
+   EVERY constructed C02 view with distinct leaf objects: exactly the stored elements some index of
+   the view resolves to change, to f(index, old); every other stored element is untouched; the view
+   afterwards reads the allocating map_with_index (C13_c02_view_map_mut*, C13_map_mut_over_constructed_view);
+   (ii) first / scalar / into_scalar / elementwise_with_index over any source meeting the contract;
+   (iii) the hypotheses of the `_over_any_source` theorems are discharged for constructed views
+   from facts about the LEAF containers only (distinct objects, data.len() = element count, together
+   at most usize::MAX values): C13_constructed_view_meets_contract; C13_elements_hypothesis_needed
+   shows that `v_ctor v = Ok c` alone does not suffice (a leaf stacked with itself);
+   (iv) reorder_mut IS `if D == 2 && is_square then swap loop else *self = self.reorder(..)`
+   (C13_reorder_mut_paths), the fallback is literally reorder for every tensor value and every
+   shape outside the guard, the swap loop runs exactly for [(a, n); (b, n)], and the shape of a
+   transposition is by NAME in the requested (not the inverse) order (C13_transpose_shape_by_name).
+   The guard is re-read from the Rust source on every run (tools/props/c13.py). *)
 From Coq Require Import List ZArith NArith Bool Arith.
 From EasyML Require Import Base.Sx Model.Shape Model.Tensor Model.TSource Model.ShapeIter
   Model.Transform Model.TransformG Proofs.ShapeP Proofs.C01P Proofs.OdometerP Proofs.C09P Proofs.C13P
   Proofs.C13bP Proofs.SwapLoopP Proofs.C13SymP Proofs.C09OwnedP Proofs.C13MutP Proofs.SrcWfP
-  Proofs.SrcLensP Proofs.C13CtorP Proofs.C13GenP.
-From EasyML Require Model.Views Proofs.C02P.
+  Proofs.SrcLensP Proofs.C13CtorP Proofs.C13GenP
+  Model.IterG Model.TransformMutG Proofs.C09ViewsP Proofs.C13MutGenP Proofs.C13LeavesP Proofs.C13ReorderP.
+From EasyML Require Model.Views Proofs.C02P Proofs.C02Inj.
 Import ListNotations.
 Open Scope N_scope.
 
@@ -471,6 +488,215 @@ Theorem C13_similar_sym_over_any_sources : forall A (eqb : A -> A -> bool),
   g_similarity eqb l r = g_similarity eqb r l.
 Proof. exact @gen_similarity_sym. Qed.
 
+(* ---------------- third wave: mutable methods, first / scalar, leaf-only hypotheses ---------------- *)
+
+(* map_mut_with_index through the generic mutable iterator, for ANY source family whose in-range
+   writes behave like a lens (P is kept by writes; shape sh fixed): afterwards every index of the
+   shape reads f(index, old element) *)
+Theorem C13_map_mut_with_index_over_any_lens_source :
+  forall St A (o : tsource St A) (sh : shape) (P : St -> Prop),
+  (forall s idx v, P s -> in_range idx (lens_of sh) ->
+     exists s', ts_set o s idx v = Some s' /\ P s' /\ ts_get o s' idx = Some v /\
+       forall idx', in_range idx' (lens_of sh) -> idx' <> idx -> ts_get o s' idx' = ts_get o s idx') ->
+  (forall s idx, P s -> in_range idx (lens_of sh) -> exists v, ts_get o s idx = Some v) ->
+  forall (f : list N -> A -> A) (s : St), P s -> ts_shape o s = sh -> lens_pos (lens_of sh) ->
+  let s' := gm_map_mut_with_index o f s in
+  P s' /\ forall x, in_range x (lens_of sh) -> ts_get o s' x = option_map (f x) (ts_get o s x).
+Proof. exact @gm_map_mut_with_index_spec. Qed.
+
+(* map_mut is the same loop with a closure ignoring the index *)
+Theorem C13_map_mut_over_any_lens_source :
+  forall St A (o : tsource St A) (sh : shape) (P : St -> Prop),
+  (forall s idx v, P s -> in_range idx (lens_of sh) ->
+     exists s', ts_set o s idx v = Some s' /\ P s' /\ ts_get o s' idx = Some v /\
+       forall idx', in_range idx' (lens_of sh) -> idx' <> idx -> ts_get o s' idx' = ts_get o s idx') ->
+  (forall s idx, P s -> in_range idx (lens_of sh) -> exists v, ts_get o s idx = Some v) ->
+  forall (g : A -> A) (s : St), P s -> ts_shape o s = sh -> lens_pos (lens_of sh) ->
+  let s' := gm_map_mut o g s in
+  gm_map_mut o g s = gm_map_mut_with_index o (fun _ => g) s /\
+  P s' /\ forall x, in_range x (lens_of sh) -> ts_get o s' x = option_map g (ts_get o s x).
+Proof. exact @gm_map_mut_spec. Qed.
+
+(* on the source terms of Model/TSource.v the generic loop IS Model/Transform.v's *)
+Theorem C13_term_map_mut_is_generic : forall A (f : list N -> A -> A) (s : tsrc A),
+  view_map_mut_with_index f s = gm_map_mut_with_index tsrc_source f s.
+Proof. exact @view_map_mut_with_index_is_generic. Qed.
+
+(* map_mut_with_index through EVERY constructed C02 view (any term, any depth) with distinct leaf
+   objects, over covering leaf storage: the stored element each index resolves to becomes
+   f(index, old); every stored element NO index of the view resolves to is untouched *)
+Theorem C13_c02_view_map_mut_with_index : forall A v c,
+  Views.v_ctor v = Ok c -> C02P.usize_view c -> NoDup (C02Inj.leaf_ids c) ->
+  forall (f : list N -> A -> A) st, covers c st ->
+  let st' := gm_map_mut_with_index (cview_source c) f st in
+  covers c st' /\
+  (forall x, in_range x (lens_of (Views.c_shape c)) ->
+     ts_get (cview_source c) st' x = option_map (f x) (ts_get (cview_source c) st x)) /\
+  (forall x e, in_range x (lens_of (Views.c_shape c)) -> Views.c_get c x = Some e ->
+     st' e = option_map (f x) (st e)) /\
+  (forall e, ~ designated c e -> st' e = st e).
+Proof. exact @cview_map_mut_with_index. Qed.
+
+Theorem C13_c02_view_map_mut : forall A v c,
+  Views.v_ctor v = Ok c -> C02P.usize_view c -> NoDup (C02Inj.leaf_ids c) ->
+  forall (g : A -> A) st, covers c st ->
+  let st' := gm_map_mut (cview_source c) g st in
+  covers c st' /\
+  (forall x, in_range x (lens_of (Views.c_shape c)) ->
+     ts_get (cview_source c) st' x = option_map g (ts_get (cview_source c) st x)) /\
+  (forall x e, in_range x (lens_of (Views.c_shape c)) -> Views.c_get c x = Some e ->
+     st' e = option_map g (st e)) /\
+  (forall e, ~ designated c e -> st' e = st e).
+Proof. exact @cview_map_mut. Qed.
+
+(* in-place = allocating, through any constructed view: afterwards the view reads, index by index,
+   the tensor map_with_index over the view (before) returns *)
+Theorem C13_c02_view_map_mut_eq_map : forall A v c,
+  Views.v_ctor v = Ok c -> C02P.usize_view c -> NoDup (C02Inj.leaf_ids c) ->
+  forall (f : list N -> A -> A) st, covers c st -> elements (Views.c_shape c) <= usize_max ->
+  exists t, g_map_with_index f (of_cview c st) = Ok t /\ t_shape t = Views.c_shape c /\
+    forall x, in_range x (lens_of (Views.c_shape c)) ->
+      ts_get (cview_source c) (gm_map_mut_with_index (cview_source c) f st) x = t_get t x.
+Proof. exact @cview_map_mut_eq_map. Qed.
+
+(* first / scalar / into_scalar / elementwise_with_index over any source meeting the contract *)
+Theorem C13_first_over_any_source : forall A (g : gsrc A), g_contract g ->
+  exists x, g_first g = Ok x /\ gs_get g (repeat 0 (length (gs_shape g))) = Some x.
+Proof. exact @gen_first. Qed.
+
+Theorem C13_first_is_materialised_first : forall A (g : gsrc A), g_contract g ->
+  exists t, g_map (fun x => x) g = Ok t /\ g_first g = tensor_first t.
+Proof. exact @gen_first_is_materialised_first. Qed.
+
+Theorem C13_scalar_over_any_source : forall A (g : gsrc A), g_contract g -> gs_shape g = [] ->
+  exists x, g_scalar g = Ok x /\ g_first g = Ok x /\ gs_get g [] = Some x.
+Proof. exact @gen_scalar. Qed.
+
+Theorem C13_into_scalar_moves_out : forall St A (o : tsource St A) (dflt : A) (s : St),
+  ts_shape o s = [] ->
+  fst (gm_into_scalar o dflt s) = gm_scalar o s /\
+  (forall x, ts_get o s [] = Some x ->
+     snd (gm_into_scalar o dflt s) = match ts_set o s [] dflt with Some s' => s' | None => s end).
+Proof. exact @gm_into_scalar_spec. Qed.
+
+Theorem C13_elementwise_with_index_over_any_sources :
+  forall A (f : list N -> A -> A -> A) (l r : gsrc A), g_contract l -> g_contract r ->
+  (gs_shape l = gs_shape r ->
+   exists t, g_elementwise_with_index f l r = Ok t /\
+     materialises t (gs_shape l)
+       (fun idx => match gs_get l idx, gs_get r idx with Some x, Some y => Some (f idx x y) | _, _ => None end)) /\
+  (gs_shape l <> gs_shape r -> g_elementwise_with_index f l r = Panic).
+Proof. exact @gen_elementwise_with_index. Qed.
+
+(* ---- the hypotheses of the any-source theorems, from the LEAVES of a constructed view ---- *)
+
+(* pigeonhole over C02's injective, in-bounds index map: a view with distinct leaf objects has at
+   most as many elements as its leaves store together *)
+Theorem C13_view_elements_le_leaves : forall c,
+  C02P.cwf c -> C02P.usize_view c -> NoDup (C02Inj.leaf_ids c) ->
+  elements (Views.c_shape c) <= Views.sum (map snd (Views.c_leaves c)).
+Proof. exact view_elements_le_leaves. Qed.
+
+Theorem C13_leaves_give_usize_view : forall c, C02P.cwf c -> NoDup (C02Inj.leaf_ids c) ->
+  Views.sum (map snd (Views.c_leaves c)) <= usize_max -> C02P.usize_view c.
+Proof. exact sum_usize_view. Qed.
+
+(* leaf containers satisfying data.len() = element count cover every in-bounds offset *)
+Theorem C13_leaves_cover : forall A c (L : N -> list A), leaves_hold c L -> covers c (store_of L).
+Proof. exact @leaves_cover. Qed.
+
+(* every constructed view over its leaf containers meets the contract of ALL `_over_any_source`
+   theorems above (map, map_with_index, reorder, transpose, elementwise(_with_index), first,
+   scalar, equality, similarity): no hypothesis on the view, only on the leaves *)
+Theorem C13_constructed_view_meets_contract : forall A v c (L : N -> list A),
+  Views.v_ctor v = Ok c -> NoDup (C02Inj.leaf_ids c) -> leaves_hold c L ->
+  Views.sum (map snd (Views.c_leaves c)) <= usize_max ->
+  C02P.usize_view c /\ elements (Views.c_shape c) <= usize_max /\ covers c (store_of L) /\
+  g_contract (of_cview c (store_of L)).
+Proof. exact @constructed_view_hypotheses. Qed.
+
+Theorem C13_map_mut_over_constructed_view : forall A v c (L : N -> list A) (f : list N -> A -> A),
+  Views.v_ctor v = Ok c -> NoDup (C02Inj.leaf_ids c) -> leaves_hold c L ->
+  Views.sum (map snd (Views.c_leaves c)) <= usize_max ->
+  forall st st', st = store_of L -> st' = gm_map_mut_with_index (cview_source c) f st ->
+  covers c st' /\
+  (forall x e, in_range x (lens_of (Views.c_shape c)) -> Views.c_get c x = Some e ->
+     st' e = option_map (f x) (st e)) /\
+  (forall e, ~ designated c e -> st' e = st e) /\
+  exists t, g_map_with_index f (of_cview c st) = Ok t /\ t_shape t = Views.c_shape c /\
+    forall x, in_range x (lens_of (Views.c_shape c)) -> ts_get (cview_source c) st' x = t_get t x.
+Proof. exact @constructed_view_map_mut. Qed.
+
+(* `v_ctor v = Ok c` alone does NOT bound the element count: a 2^63-element leaf (zero-sized
+   elements) stacked with itself is accepted and has 2^64 elements - the leaf objects are shared *)
+Theorem C13_elements_hypothesis_needed :
+  let t := Views.VTensor 0 [(0%nat, 2 ^ 63)] in
+  exists c, Views.v_ctor (Views.VStack [t; t] 0 1%nat) = Ok c /\
+            usize_max < elements (Views.c_shape c) /\ ~ NoDup (C02Inj.leaf_ids c).
+Proof. exact elements_hypothesis_needed. Qed.
+
+(* ---- reorder_mut's two paths; the shape of a transposition ---- *)
+
+Theorem C13_reorder_mut_paths : forall A (t : tensor A) dims,
+  reorder_mut t dims =
+  if reorder_mut_guard (t_shape t) then reorder_mut_square_path t dims else reorder (TBase t) dims.
+Proof. exact @reorder_mut_paths. Qed.
+
+(* the fallback path is LITERALLY `*self = self.reorder(..)`: any tensor value, any shape outside
+   the guard (D <> 2, or unequal lengths), any name list; the same for transpose_mut *)
+Theorem C13_reorder_mut_fallback_is_reorder : forall A (t : tensor A) dims,
+  (length (t_shape t) <> 2%nat \/ is_square (t_shape t) = false) ->
+  reorder_mut t dims = reorder (TBase t) dims /\
+  transpose_mut t dims = transpose (TBase t) dims.
+Proof. exact @reorder_mut_fallback. Qed.
+
+Theorem C13_square_path_iff : forall sh,
+  reorder_mut_guard sh = true <-> exists a b n, sh = [(a, n); (b, n)].
+Proof. exact square_path_iff. Qed.
+
+Theorem C13_square_path_requires_two_dimensions : forall sh,
+  reorder_mut_guard sh = true -> length sh = 2%nat.
+Proof. exact square_path_requires_two_dimensions. Qed.
+
+Theorem C13_cubes_take_the_fallback : forall A (t : tensor A) dims,
+  (3 <= length (t_shape t))%nat -> reorder_mut t dims = reorder (TBase t) dims.
+Proof. exact @cubes_take_the_fallback. Qed.
+
+(* transpose: dimension d keeps its name and gets the length of the dimension CALLED dims[d] *)
+Theorem C13_transpose_shape_by_name : forall A (s : tsrc A) dims t',
+  NoDup (names_of (src_shape s)) -> length dims = length (src_shape s) ->
+  transpose s dims = Ok t' ->
+  t_shape t' = with_names_of (src_shape s) (shape_by_name (src_shape s) dims) /\
+  names_of (t_shape t') = names_of (src_shape s) /\
+  lens_of (t_shape t') =
+    map (fun n => match length_of (src_shape s) n with Some l => l | None => 0 end) dims.
+Proof. exact @transpose_shape_by_name. Qed.
+
+(* non-vacuity of the third-wave statements: a TensorIndex selection (index 2 of dimension 3) of a
+   2x1x3 leaf held in a Vec of six values: the leaf facts hold, map_mut_with_index through the view
+   changes exactly offsets 2 and 5; a non-involutive transposition of a 2x3x4 tensor gets its
+   lengths by name; a 2x2x2 cube takes the fallback *)
+Example C13_nonvacuous_third_wave :
+  let v := Views.VIndex (Views.VTensor 2 [(0%nat, 2); (5%nat, 1); (3%nat, 3)]) [(3%nat, 2)] in
+  let L := fun _ : N => [10; 11; 12; 13; 14; 15]%Z in
+  let f := fun (i : list N) (x : Z) => (x * 100 + Z.of_N (nth 0%nat i 0%N))%Z in
+  (exists c, Views.v_ctor v = Ok c /\ NoDup (C02Inj.leaf_ids c) /\ leaves_hold c L /\
+     Views.sum (map snd (Views.c_leaves c)) <= usize_max /\
+     map (fun off => gm_map_mut_with_index (cview_source c) f (store_of L) (2, off)) [0; 1; 2; 3; 4; 5] =
+     map Some [10; 11; 1200; 13; 14; 1501]%Z) /\
+  (exists t', transpose (TBase (mkTensor (map Z.of_nat (seq 0 24)) [(0%nat, 2); (1%nat, 3); (2%nat, 4)] [12; 4; 1]))
+                        [1%nat; 2%nat; 0%nat] = Ok t' /\
+              t_shape t' = [(0%nat, 3); (1%nat, 4); (2%nat, 2)]) /\
+  reorder_mut_guard [(0%nat, 2); (1%nat, 2); (2%nat, 2)] = false /\
+  reorder_mut_guard [(0%nat, 3); (1%nat, 3)] = true.
+Proof.
+  cbv zeta. split; [|split; [|split; reflexivity]].
+  - eexists. split; [vm_compute; reflexivity|]. split; [repeat constructor; intros []|].
+    split; [intros l n [[= <- <-]|[]]; reflexivity|]. split; [vm_compute; discriminate|].
+    vm_compute. reflexivity.
+  - eexists. split; vm_compute; reflexivity.
+Qed.
+
 (* non-vacuity of the session-3 statements: a TensorStack of a TensorExpansion and a reversed
    TensorIndex selection (none of which is a source term of Model/TSource.v) meets the contract and
    is materialised by map *)
@@ -589,3 +815,26 @@ Print Assumptions C13_elementwise_over_any_sources.
 Print Assumptions C13_eq_iff_over_any_sources.
 Print Assumptions C13_similar_iff_over_any_sources.
 Print Assumptions C13_similar_sym_over_any_sources.
+Print Assumptions C13_map_mut_with_index_over_any_lens_source.
+Print Assumptions C13_map_mut_over_any_lens_source.
+Print Assumptions C13_term_map_mut_is_generic.
+Print Assumptions C13_c02_view_map_mut_with_index.
+Print Assumptions C13_c02_view_map_mut.
+Print Assumptions C13_c02_view_map_mut_eq_map.
+Print Assumptions C13_first_over_any_source.
+Print Assumptions C13_first_is_materialised_first.
+Print Assumptions C13_scalar_over_any_source.
+Print Assumptions C13_into_scalar_moves_out.
+Print Assumptions C13_elementwise_with_index_over_any_sources.
+Print Assumptions C13_view_elements_le_leaves.
+Print Assumptions C13_leaves_give_usize_view.
+Print Assumptions C13_leaves_cover.
+Print Assumptions C13_constructed_view_meets_contract.
+Print Assumptions C13_map_mut_over_constructed_view.
+Print Assumptions C13_elements_hypothesis_needed.
+Print Assumptions C13_reorder_mut_paths.
+Print Assumptions C13_reorder_mut_fallback_is_reorder.
+Print Assumptions C13_square_path_iff.
+Print Assumptions C13_square_path_requires_two_dimensions.
+Print Assumptions C13_cubes_take_the_fallback.
+Print Assumptions C13_transpose_shape_by_name.
